@@ -309,6 +309,7 @@ func (p *P) Run(src *tape.Source, trace bool) *core.Result {
 		for ei, E := range []error{context.Canceled, context.DeadlineExceeded} {
 			// fresh instances per cancellation point: whatever the residue probe
 			// finds is then due to the cancelled call alone, not to earlier probes
+			simhook.PurgeAll() // pools then hold only what this cancelled call releases
 			newInst()
 			ctx := simctx.New(k, E)
 			o := call(ctx)
@@ -335,6 +336,15 @@ func (p *P) Run(src *tape.Source, trace bool) *core.Result {
 			} else if !errors.Is(o.err, E) {
 				r.Fail("cancel-reported", entryNames[entry]+" swallowed-by="+structuredCode(o.err),
 					fmt.Sprintf("cancelled (%v) at poll %d/%d of %q; errors.Is(err, ctxErr) is false; err = %v", E, k, P, sql, o.err))
+			}
+			// residue in the shared pools: the cancelled call's own clean-up must not
+			// release anything twice (the next two users would share one object)
+			for _, pi := range simhook.Pools() {
+				if pi.Dup != nil && pi.Dup() {
+					r.Fail("no-residue", entryNames[entry]+" pool-holds-an-object-twice "+poolName(pi.Site),
+						fmt.Sprintf("after %s was cancelled (%v) at poll %d/%d of %q the pool used at %s holds the same object twice: the call's clean-up released it twice, two later users would share it", entryNames[entry], E, k, P, sql, pi.Site))
+					pi.Purge()
+				}
 			}
 			if ctx.After > 3 {
 				r.Fail("bounded-work-after-cancel", entryNames[entry], fmt.Sprintf("library polled the context %d more times after it had answered %v at poll %d of %q", ctx.After, E, k, sql))
@@ -447,4 +457,11 @@ func parBattery(p *parser.Parser, full bool, rot int) []probe.Res {
 		return probe.ParBattery(p, rot)
 	}
 	return probe.ParBatteryCheap(p)
+}
+
+func poolName(site string) string {
+	if i := strings.LastIndex(site, " "); i >= 0 {
+		return site[i+1:]
+	}
+	return site
 }
